@@ -22,6 +22,11 @@ Proof. reflexivity. Qed.
    everything below goes through get_key_cases / store_key_cases. *)
 From V Require Import Proofs.C02.
 
+(* the source's L0 guard (KeyCache._get_key), regenerated *)
+Definition l0_in_range (l0 : Z) : Prop := k_cache_l0_guard l0 = false.
+Lemma l0_in_range_iff l0 : l0_in_range l0 <-> 0 <= l0 <= 2147483647.
+Proof. unfold l0_in_range, k_cache_l0_guard. lia. Qed.
+
 Section C10.
 Set Default Proof Using "Type".
 Context {K RK : Type}.
@@ -430,14 +435,19 @@ Definition pend_pos (p : pending (K := K)) : Prop :=
   end.
 (* loads are of true root keys *)
 Definition ev_true ev : Prop := match ev with Start (CLoad rk d) => agrees rk d | _ => True end.
-(* ... and requested positions are positions *)
+(* ... and requested positions are positions.  l0_in_range: the abstract get_key has NO counterpart of the source's L0 guard
+   (KeyCache._get_key: `if not 0 <= l0 <= 0x7FFFFFFF: raise ValueError`, regenerated as k_cache_l0_guard and present in the
+   concrete Model/Client.v cc_get_key): for an L0 the guard refuses the source raises before touching the cache, where this
+   model goes on.  Admitted histories therefore only contain requests the guard lets through, for unprotect (the blob's L0)
+   and for protect (the L0 computed from the clock). *)
 Definition ev_adm ev : Prop :=
   match ev with
   | Start (CLoad rk d) => agrees rk d
-  | Start (CUnprotect sd rk l0 l1 l2) => 0 <= l0 /\ 0 <= l1 <= 31 /\ 0 <= l2 <= 31
-  | Start (CProtect sd rko l0 l1 l2) => 0 <= l1 <= 31 /\ 0 <= l2 <= 31
+  | Start (CUnprotect sd rk l0 l1 l2) => (0 <= l0 /\ 0 <= l1 <= 31 /\ 0 <= l2 <= 31) /\ l0_in_range l0
+  | Start (CProtect sd rko l0 l1 l2) => (0 <= l1 <= 31 /\ 0 <= l2 <= 31) /\ l0_in_range l0
   | Finish _ => True
   end.
+
 Lemma ev_adm_true ev : ev_adm ev -> ev_true ev.
 Proof. destruct ev as [[| |]|]; cbn; auto. Qed.
 
@@ -584,7 +594,7 @@ Lemma step_out w ev : Inv (w_cache w) -> Forall pend_conf (w_pending w) -> Foral
 Proof using dc_explicit.
   intros HI HC HP Hev. destruct ev as [[rk d|sd rk l0 l1 l2|sd rko l0 l1 l2]|i].
   - split; [exact HP|]. exists []. split; [symmetry; apply app_nil_r|constructor].
-  - destruct Hev as (R0 & R1 & R2). destruct (get_key' (w_cache w) sd rk l0 l1 l2) as [[e|] c1] eqn:G.
+  - destruct Hev as ((R0 & R1 & R2) & _). destruct (get_key' (w_cache w) sd rk l0 l1 l2) as [[e|] c1] eqn:G.
     + rewrite (step_unprotect_hit _ _ _ _ _ _ _ _ G). cbn [w_out w_pending]. split; [exact HP|].
       eexists. split; [reflexivity|]. constructor; [|constructor].
       rewrite (unprotect_hit_outcome _ _ _ _ _ _ _ _ 0 HI G R1 R2). intros _.
@@ -602,7 +612,7 @@ Proof using dc_explicit.
       * apply Forall_snoc; [exact HP|exact I].
       * exists []. split; [symmetry; apply app_nil_r|constructor].
     + (* compute_l2_key cannot raise on an invariant-respecting entry and a position *)
-      exfalso. destruct Hev as (R1 & R2).
+      exfalso. destruct Hev as ((R1 & R2) & _).
       destruct (get_key_sound _ _ _ _ _ _ _ _ HI G) as (_ & _ & _ & _ & Hc & Hcov).
       rewrite (derive_conf sd e l1 l2 Hc R1 R2) in D by (apply Hcov; lia). discriminate.
     + rewrite (step_protect_hit _ _ _ _ _ _ _ _ P). cbn [w_out w_pending]. split; [exact HP|].
@@ -848,6 +858,226 @@ Lemma prot_env_not_conf sd rk l0 l1 l2 k : 0 < l1 -> l2 <> 31 ->
 Proof.
   intros R1 R2 N [_ (_ & _ & _ & H)]. destruct (H R2) as [_ H1]. exact (N (H1 R1)).
 Qed.
+(* ---- 2b. every outcome tied to ITS call ----
+   good_outcome only says "some (rk, sd)" and nothing about public-key outcomes.  Here the calls are tracked alongside the
+   world: a ghost list of the calls whose RPC is pending (parallel to w_pending) and a ghost list of the completed calls in
+   completion order (parallel to w_out).  `tied cl o` names cl's own (rk, sd, l0, l1, l2); a public-key outcome is the DC's
+   reply to exactly that call's request (no key is derived on unprotect; protect uses the reply's public key field). *)
+Definition callT := call (RK := RK).
+Definition tied (cl : callT) (o : outcome (K := K)) : Prop :=
+  match cl with
+  | CLoad _ _ => False
+  | CUnprotect sd rk l0 l1 l2 =>
+    o_pos o = (l0, l1, l2) /\
+    ((o_rpcs o = 0 /\ o_pub o = false) \/ (o_rpcs o = 1 /\ o_pub o = c_pub (dc sd (Some rk) l0 l1 l2))) /\
+    (o_pub o = false -> o_key o = Ok (key_at rk sd l0 l1 l2)) /\
+    (o_pub o = true -> o_key o = Raise ValueError)
+  | CProtect sd rko l0 l1 l2 =>
+    (o_rpcs o = 0 /\ o_pub o = false /\ o_pos o = (l0, l1, l2) /\ exists rk, rko = Some rk /\ o_key o = Ok (key_at rk sd l0 l1 l2)) \/
+    (o_rpcs o = 1 /\ let e := dc sd rko (-1) (-1) (-1) in
+       o = fst (protect_finish (empty_cache (RK := RK)) sd e 1) /\
+       (c_pub e = false -> c_k2 e = key_at (c_rk e) sd (c_l0 e) (c_l1 e) (c_l2 e)))
+  end.
+Definition pend_of (cl : callT) (p : pending (K := K)) : Prop :=
+  match cl, p with
+  | CUnprotect sd rk l0 l1 l2, PUnprotect sd' l0' l1' l2' e =>
+    sd' = sd /\ l0' = l0 /\ l1' = l1 /\ l2' = l2 /\ e = dc sd (Some rk) l0 l1 l2 /\ 0 <= l0 /\ 0 <= l1 <= 31 /\ 0 <= l2 <= 31
+  | CProtect sd rko l0 l1 l2, PProtect sd' e => sd' = sd /\ e = dc sd rko (-1) (-1) (-1)
+  | _, _ => False
+  end.
+
+(* the ghost step: where the model completes a call at once it joins the completed calls, where it leaves an RPC pending it
+   joins the pending calls; Finish i moves the i-th pending call *)
+Definition gstep (w : worldT) (g : list callT * list callT) (ev : eventT) : list callT * list callT :=
+  let '(gp, go) := g in
+  match ev with
+  | Start (CLoad _ _) => (gp, go)
+  | Start (CUnprotect sd rk l0 l1 l2 as cl) =>
+    match fst (get_key' (w_cache w) sd rk l0 l1 l2) with Some _ => (gp, go ++ [cl]) | None => (gp ++ [cl], go) end
+  | Start (CProtect sd rko l0 l1 l2 as cl) =>
+    match fst (protection_gke kdf l1seed nokey (w_cache w) sd rko l0 l1 l2) with Some _ => (gp, go ++ [cl]) | None => (gp ++ [cl], go) end
+  | Finish i => match nth_error gp i with Some cl => (remove_nth i gp, go ++ [cl]) | None => (gp, go) end
+  end.
+Fixpoint grun (evs : list eventT) (w : worldT) (g : list callT * list callT) : worldT * (list callT * list callT) :=
+  match evs with [] => (w, g) | ev :: r => grun r (step' w ev) (gstep w g ev) end.
+Lemma grun_world evs w g : fst (grun evs w g) = fold_left step' evs w.
+Proof. revert w g. induction evs as [|ev evs IH]; intros w g; [reflexivity|]. cbn [grun fold_left]. apply IH. Qed.
+(* the completed calls of a history, in completion order *)
+Definition completed (evs : list eventT) : list callT := snd (snd (grun evs init_world ([], []))).
+
+Lemma Forall2_nth_error {A B} (R : A -> B -> Prop) l1 l2 i b : Forall2 R l1 l2 -> nth_error l2 i = Some b ->
+  exists a, nth_error l1 i = Some a /\ R a b.
+Proof.
+  intros H. revert i. induction H as [|x y l1 l2 Hxy H IH]; intros i Hi; [destruct i; discriminate|].
+  destruct i as [|i]; cbn [nth_error] in *; [injection Hi as <-; eauto|exact (IH i Hi)].
+Qed.
+Lemma Forall2_nth_error_None {A B} (R : A -> B -> Prop) l1 l2 i : Forall2 R l1 l2 -> nth_error l2 i = None -> nth_error l1 i = None.
+Proof.
+  intros H. revert i. induction H as [|x y l1 l2 Hxy H IH]; intros i Hi; [destruct i; reflexivity|].
+  destruct i as [|i]; cbn [nth_error] in *; [discriminate|exact (IH i Hi)].
+Qed.
+Lemma Forall2_remove_nth {A B} (R : A -> B -> Prop) l1 l2 i : Forall2 R l1 l2 -> Forall2 R (remove_nth i l1) (remove_nth i l2).
+Proof.
+  intros H. revert i. induction H as [|x y l1 l2 Hxy H IH]; intros i; [destruct i; constructor|].
+  destruct i as [|i]; cbn [remove_nth]; [exact H|constructor; [exact Hxy|apply IH]].
+Qed.
+Lemma Forall2_snoc {A B} (R : A -> B -> Prop) l1 l2 a b : Forall2 R l1 l2 -> R a b -> Forall2 R (l1 ++ [a]) (l2 ++ [b]).
+Proof. intros H Hab. apply Forall2_app; [exact H|constructor; [exact Hab|constructor]]. Qed.
+
+Definition GInv (w : worldT) (g : list callT * list callT) : Prop :=
+  Forall2 pend_of (fst g) (w_pending w) /\ Forall2 tied (snd g) (w_out w).
+
+Lemma tied_unprotect_finish_rpc c sd rk l0 l1 l2 : 0 <= l0 -> 0 <= l1 <= 31 -> 0 <= l2 <= 31 ->
+  tied (CUnprotect sd rk l0 l1 l2) (fst (unprotect_finish kdf c sd l0 l1 l2 (dc sd (Some rk) l0 l1 l2) 1)).
+Proof using dc_conforming dc_explicit.
+  intros R0 R1 R2. destruct (c_pub (dc sd (Some rk) l0 l1 l2)) eqn:Hp.
+  - unfold unprotect_finish. cbn [fst tied o_pos o_rpcs o_pub o_key]. rewrite Hp.
+    split; [reflexivity|]. split; [right; split; reflexivity|]. split; [discriminate|reflexivity].
+  - rewrite (unprotect_rpc_outcome c sd rk l0 l1 l2 1 R0 R1 R2 Hp). cbn [tied o_pos o_rpcs o_pub o_key]. rewrite Hp.
+    split; [reflexivity|]. split; [right; split; reflexivity|]. split; [reflexivity|discriminate].
+Qed.
+
+Lemma gstep_GInv w g ev : Inv (w_cache w) -> GInv w g -> ev_adm ev -> GInv (step' w ev) (gstep w g ev).
+Proof using dc_conforming dc_explicit.
+  intros HI [HP HO] Hev. destruct g as [gp go]. cbn [fst snd] in HP, HO.
+  destruct ev as [[rk d|sd rk l0 l1 l2|sd rko l0 l1 l2]|i]; cbn [gstep].
+  - split; assumption.
+  - destruct Hev as ((R0 & R1 & R2) & _). destruct (get_key' (w_cache w) sd rk l0 l1 l2) as [[e|] c1] eqn:G; cbn [fst].
+    + rewrite (step_unprotect_hit _ _ _ _ _ _ _ _ G). split; cbn [fst snd w_pending w_out]; [exact HP|].
+      apply Forall2_snoc; [exact HO|]. rewrite (unprotect_hit_outcome _ _ _ _ _ _ _ _ 0 HI G R1 R2).
+      cbn [tied o_pos o_rpcs o_pub o_key]. split; [reflexivity|]. split; [left; split; reflexivity|]. split; [reflexivity|discriminate].
+    + rewrite (step_unprotect_miss _ _ _ _ _ _ _ G). split; cbn [fst snd w_pending w_out]; [|exact HO].
+      apply Forall2_snoc; [exact HP|]. cbn [pend_of]. auto 10.
+  - destruct Hev as ((R1 & R2) & _).
+    destruct (protection_gke_cases (w_cache w) sd rko l0 l1 l2)
+      as [[-> P]|(rk & -> & [(c1 & G & P)|(e & c1 & G & [(er & D & P)|(k & D & P)])])]; rewrite P; cbn [fst].
+    + rewrite (step_protect_miss _ _ _ _ _ _ _ P). split; cbn [fst snd w_pending w_out]; [|exact HO].
+      apply Forall2_snoc; [exact HP|]. cbn [pend_of]. auto.
+    + rewrite (step_protect_miss _ _ _ _ _ _ _ P). split; cbn [fst snd w_pending w_out]; [|exact HO].
+      apply Forall2_snoc; [exact HP|]. cbn [pend_of]. auto.
+    + exfalso. destruct (get_key_sound _ _ _ _ _ _ _ _ HI G) as (_ & _ & _ & _ & Hc & Hcov).
+      rewrite (derive_conf sd e l1 l2 Hc R1 R2) in D by (apply Hcov; lia). discriminate.
+    + rewrite (step_protect_hit _ _ _ _ _ _ _ _ P). split; cbn [fst snd w_pending w_out]; [exact HP|].
+      apply Forall2_snoc; [exact HO|]. rewrite (protect_hit_outcome _ _ _ _ _ _ _ _ _ 0 HI G D).
+      cbn [tied o_pos o_rpcs o_pub o_key]. left. repeat split. exists rk. split; reflexivity.
+  - destruct (nth_error (w_pending w) i) as [[sd l0 l1 l2 e|sd e]|] eqn:G.
+    + destruct (Forall2_nth_error _ _ _ _ _ HP G) as (cl & Hcl & Hpo). rewrite Hcl.
+      rewrite (step_finish_unprotect _ _ _ _ _ _ _ G). split; cbn [fst snd w_pending w_out]; [apply Forall2_remove_nth; exact HP|].
+      apply Forall2_snoc; [exact HO|]. destruct cl as [|sd' rk l0' l1' l2'|]; cbn [pend_of] in Hpo; try contradiction.
+      destruct Hpo as (-> & -> & -> & -> & -> & R0 & R1 & R2). apply tied_unprotect_finish_rpc; assumption.
+    + destruct (Forall2_nth_error _ _ _ _ _ HP G) as (cl & Hcl & Hpo). rewrite Hcl.
+      rewrite (step_finish_protect _ _ _ _ G). split; cbn [fst snd w_pending w_out]; [apply Forall2_remove_nth; exact HP|].
+      apply Forall2_snoc; [exact HO|]. destruct cl as [| |sd' rko l0' l1' l2']; cbn [pend_of] in Hpo; try contradiction.
+      destruct Hpo as (-> & ->). cbn [tied]. right. split; [reflexivity|]. cbv zeta. split; [reflexivity|].
+      intros Hp. exact (proj2 (dc_adm _ _ _ _ _ Hp)).
+    + rewrite (Forall2_nth_error_None _ _ _ _ HP G). rewrite (step_finish_none _ _ G). split; assumption.
+Qed.
+
+Lemma grun_GInv evs w g : WGood w -> GInv w g -> Forall ev_adm evs ->
+  GInv (fst (grun evs w g)) (snd (grun evs w g)).
+Proof using dc_conforming dc_explicit.
+  revert w g. induction evs as [|ev evs IH]; intros w g HW HG HA; [exact HG|].
+  inversion HA; subst. cbn [grun]. apply IH; [apply step_WGood; assumption| |assumption].
+  apply gstep_GInv; [exact (proj1 (proj1 HW))|exact HG|assumption].
+Qed.
+
+(* 2b. in every admitted history, whatever the interleaving: the i-th completed call and the i-th outcome are tied *)
+Theorem outcomes_tied evs : Forall ev_adm evs -> Forall2 tied (completed evs) (w_out (run' evs)).
+Proof using dc_conforming dc_explicit.
+  intros HA. unfold completed, run_events. rewrite <- (grun_world evs init_world ([], [])).
+  apply (grun_GInv evs init_world ([], [])); [|split; constructor|exact HA].
+  split; [exact WInv_init|]. split; constructor.
+Qed.
+
+(* the completed calls are calls of the history *)
+Lemma gstep_calls w g ev (P : callT -> Prop) : (forall cl, ev = Start cl -> P cl) ->
+  Forall P (fst g) -> Forall P (snd g) -> Forall P (fst (gstep w g ev)) /\ Forall P (snd (gstep w g ev)).
+Proof using Type. clear dc_explicit dc_conforming truth.
+  intros Hev. destruct g as [gp go]. cbn [fst snd]. intros Hp Ho.
+  destruct ev as [[rk d|sd rk l0 l1 l2|sd rko l0 l1 l2]|i]; cbn [gstep].
+  - split; assumption.
+  - destruct (fst (get_key' (w_cache w) sd rk l0 l1 l2)); cbn [fst snd]; split; try assumption; apply Forall_snoc; auto.
+  - destruct (fst (protection_gke kdf l1seed nokey (w_cache w) sd rko l0 l1 l2)); cbn [fst snd]; split; try assumption; apply Forall_snoc; auto.
+  - destruct (nth_error gp i) as [cl|] eqn:E; cbn [fst snd]; [|split; assumption].
+    split; [apply Forall_remove_nth; exact Hp|apply Forall_snoc; [exact Ho|exact (Forall_nth_error _ _ _ _ Hp E)]].
+Qed.
+Lemma completed_started evs : Forall (fun cl => In (Start cl) evs) (completed evs).
+Proof using Type. clear dc_explicit dc_conforming truth.
+  unfold completed.
+  assert (H : forall (evs0 l : list eventT) w g, (forall ev, In ev l -> In ev evs0) ->
+             Forall (fun cl => In (Start cl) evs0) (fst g) -> Forall (fun cl => In (Start cl) evs0) (snd g) ->
+             Forall (fun cl => In (Start cl) evs0) (snd (snd (grun l w g)))).
+  { intros evs0 l. induction l as [|ev evs' IH]; intros w g Hin Hp Ho; [exact Ho|]. cbn [grun].
+    destruct (gstep_calls w g ev (fun cl => In (Start cl) evs0)) as [Hp' Ho']; [intros cl ->; apply Hin; left; reflexivity|exact Hp|exact Ho|].
+    apply IH; [intros ev' Hev'; apply Hin; right; exact Hev'|exact Hp'|exact Ho']. }
+  apply (H evs evs init_world ([], [])); [auto|constructor|constructor].
+Qed.
+
+(* ---- literally "the same as with a fresh cache" ---- *)
+(* protect: a fresh cache always asks the DC, which answers for ITS current position; a cache that serves the call answers for
+   the caller's clock position.  The two agree when the DC's clock is the caller's: *)
+Definition dc_clock (sd : Z) (rko : option Z) (l0 l1 l2 : Z) : Prop :=
+  let e := dc sd rko (-1) (-1) (-1) in
+  c_pub e = false -> (forall rk, rko = Some rk -> c_rk e = rk) /\ c_l0 e = l0 /\ c_l1 e = l1 /\ c_l2 e = l2.
+
+Definition same_as_fresh (cl : callT) (o : outcome (K := K)) : Prop :=
+  match cl with
+  | CLoad _ _ => True
+  | CUnprotect sd rk l0 l1 l2 =>
+    let o0 := fst (unprotect kdf l1seed nokey dc empty_cache sd rk l0 l1 l2) in
+    o_pub o = false -> o_pub o0 = false -> o_key o = o_key o0 /\ o_pos o = o_pos o0
+  | CProtect sd rko l0 l1 l2 =>
+    let o0 := fst (protect kdf l1seed nokey dc empty_cache sd rko l0 l1 l2) in
+    (o_rpcs o = 1 -> o = o0) /\
+    (dc_clock sd rko l0 l1 l2 -> o_pub o = false -> o_pub o0 = false -> o_key o = o_key o0 /\ o_pos o = o_pos o0)
+  end.
+
+Lemma protect_fresh sd rko l0 l1 l2 :
+  fst (protect kdf l1seed nokey dc empty_cache sd rko l0 l1 l2) = fst (protect_finish (empty_cache (RK := RK)) sd (dc sd rko (-1) (-1) (-1)) 1).
+Proof using Type. clear dc_explicit dc_conforming truth.
+  destruct rko as [rk|]; reflexivity.
+Qed.
+
+Lemma tied_same_as_fresh cl o : ev_adm (Start cl) -> tied cl o -> same_as_fresh cl o.
+Proof using dc_conforming dc_explicit.
+  destruct cl as [rk d|sd rk l0 l1 l2|sd rko l0 l1 l2]; cbn [same_as_fresh tied ev_adm]; [auto| |].
+  - intros ((R0 & R1 & R2) & _) (Hpos & _ & Hk & _) Hp Hp0.
+    destruct (unprotect_transparent empty_cache sd rk l0 l1 l2 Inv_empty R0 R1 R2) as (_ & Hpos0 & Hk0 & _).
+    rewrite (Hk Hp), (Hk0 Hp0), Hpos, Hpos0. split; reflexivity.
+  - intros _ H. rewrite protect_fresh. destruct H as [(Hr & Hp & Hpos & rk & -> & Hk)|(Hr & Ho & Hadm)].
+    + split; [intros X; rewrite Hr in X; discriminate|]. intros Hclk _ Hp0.
+      unfold protect_finish in *. cbn [fst o_pub o_key o_pos] in *. destruct (Hclk Hp0) as (Erk & E0 & E1 & E2).
+      rewrite Hk, Hpos. destruct (dc_adm _ _ _ _ _ Hp0) as [_ Hk2]. rewrite Hk2, (Erk rk eq_refl), E0, E1, E2. split; reflexivity.
+    + split; [intros _; exact Ho|]. intros _ _ _. rewrite Ho. split; reflexivity.
+Qed.
+
+(* for every admitted history and every call completed in it: the same key / position as the same call on a fresh cache *)
+Theorem history_same_as_fresh evs : Forall ev_adm evs -> Forall2 same_as_fresh (completed evs) (w_out (run' evs)).
+Proof using dc_conforming dc_explicit.
+  intros HA. pose proof (outcomes_tied evs HA) as HT. pose proof (completed_started evs) as HS.
+  revert HS. generalize (completed evs) (w_out (run' evs)) HT. intros l1 l2 H. induction H as [|cl o l1 l2 Hco H IH]; intros HS; [constructor|].
+  inversion HS as [|? ? Hin HS']; subst. constructor; [|exact (IH HS')].
+  apply tied_same_as_fresh; [|exact Hco]. rewrite Forall_forall in HA. exact (HA _ Hin).
+Qed.
+
+(* the sync protect call against a fresh cache (the protect analogue of unprotect_same_as_fresh) *)
+Theorem protect_same_as_fresh c sd rko l0 l1 l2 : Inv c -> 0 <= l1 <= 31 -> 0 <= l2 <= 31 -> dc_clock sd rko l0 l1 l2 ->
+  let o := fst (protect kdf l1seed nokey dc c sd rko l0 l1 l2) in
+  let o0 := fst (protect kdf l1seed nokey dc empty_cache sd rko l0 l1 l2) in
+  o_pub o = false -> o_pub o0 = false -> o_key o = o_key o0 /\ o_pos o = o_pos o0.
+Proof using dc_conforming dc_explicit.
+  intros HI R1 R2 Hclk o o0 Hp Hp0. subst o o0. rewrite protect_fresh in *. revert Hp. unfold protect.
+  destruct (protection_gke_cases c sd rko l0 l1 l2)
+    as [[-> P]|(rk & -> & [(c1 & G & P)|(e & c1 & G & [(er & D & P)|(k & D & P)])])]; rewrite P; cbv zeta; intros Hp.
+  - split; reflexivity.
+  - split; reflexivity.
+  - exfalso. destruct (get_key_sound _ _ _ _ _ _ _ _ HI G) as (_ & _ & _ & _ & Hc & Hcov).
+    rewrite (derive_conf sd e l1 l2 Hc R1 R2) in D by (apply Hcov; lia). discriminate.
+  - rewrite (protect_hit_outcome _ _ _ _ _ _ _ _ _ 0 HI G D). unfold protect_finish in *. cbn [fst o_pub o_key o_pos] in *.
+    destruct (Hclk Hp0) as (Erk & E0 & E1 & E2). destruct (dc_adm _ _ _ _ _ Hp0) as [_ Hk2].
+    rewrite Hk2, (Erk rk eq_refl), E0, E1, E2. split; reflexivity.
+Qed.
+
 End C10.
 
 (* =====================================================================================
@@ -922,6 +1152,15 @@ Lemma history_outcomes :
    (Ok (tkey 1 0 361 2 9), (361, 2, 9), 0); (Ok (tkey 1 0 361 5 0), (361, 5, 0), 0);
    (Ok (tkey 1 0 361 7 5), (361, 7, 5), 0); (Ok (tkey 1 0 361 7 5), (361, 7, 5), 1)].
 Proof. vm_compute. reflexivity. Qed.
+(* the calls in completion order: the second unprotect completes before the first (outcomes_tied pairs them with the outcomes above) *)
+Lemma history_completed :
+  completed tkdf tl1seed tnokey tdc history =
+  [CUnprotect 0 1 361 3 2; CUnprotect 0 1 361 3 4; CUnprotect 0 1 361 2 9; CUnprotect 0 1 361 5 0;
+   CProtect 0 (Some 1) 361 7 5; CProtect 0 None 361 7 5].
+Proof. vm_compute. reflexivity. Qed.
+(* the toy DC's clock is the caller's for the protect calls of the history *)
+Lemma history_dc_clock : dc_clock tdc 0 (Some 1) 361 7 5 /\ dc_clock tdc 0 None 361 7 5.
+Proof. split; unfold dc_clock; cbv zeta; intros _; (split; [intros rk E; try discriminate E; injection E as <-; vm_compute; reflexivity|vm_compute; repeat split; reflexivity]). Qed.
 
 (* the envelope _get_protection_gke_from_cache builds is not a conforming envelope *)
 Lemma prot_env_not_conforming : ~ conf tkdf tl1seed ttruth 0 (prot_env tnokey 1 361 3 4 false (tkey 1 0 361 3 4)).
